@@ -179,6 +179,20 @@ for name, f in DYA.items():
     out.append('//@   ensures lift2_post_$R(c, a, b, %s, %s, %s, %s, %s, %s)' % (o(f), o(d['v10']), o(d['v01']), o(d['v11']), o(d['v20']), o(d['v02'])))
     out.append('//@   modifies $R.Value@{c}, $R.N@{c}, $R.Order@{c}, $R.Derivative@{c}, $R.Hessian@{c}, []$F@{q :: owns_$R(c, q)}')
     out.append('')
+# composite operations built from the primitives (static calls on the receiver only)
+sig = 1 / (1 + ex_(-x))
+COMP = {'Logistic': sig}
+for name, f in COMP.items():
+    f1 = sp.diff(f, x); f2 = sp.diff(f1, x)
+    XO = 'old(val(a))'
+    def insto(e):
+        return re.sub(r'\bx\b', XO, pr(sp.simplify(e)))
+    out.append('//@ func (*$R).%s' % name)
+    out.append('//@   requires RI_$R(c) && RIc(a) && sep_$R(c, a)')
+    out.append('//@   ensures isa(*$R, result) && as(*$R, result) == c')
+    out.append('//@   ensures lift1_post_$R(c, a, %s, %s, %s)' % (insto(f), insto(f1), insto(f2)))
+    out.append('//@   modifies $R.Value@{c}, $R.N@{c}, $R.Order@{c}, $R.Derivative@{c}, $R.Hessian@{c}, []$F@{q :: owns_$R(c, q)}')
+    out.append('')
 out.append('//@ end')
 out.append('')
 
